@@ -38,7 +38,10 @@ TECHNIQUE = ("stateless exhaustive enumeration of trial configurations x tagged 
 RULE = ("one execution = one call sequence on the real code: (population n<=4 with label variant, genomic model, nenv, nrep "
         "scalar/array, per-trait variances over {0,1,4}^3t, argument forms, generator class, tag variant) -> phenotype(); "
         "(population, model, h2|H2, target) -> set_h2/H2 + phenotype(); (count pattern, row order, genotype taxon list, "
-        "group-column variant, trait-column variant, value alphabet) -> estimate().  State = configuration without the "
+        "group-column variant, trait-column variant, value alphabet, ROW-INDEX variant: RangeIndex / permuted labels / filtered "
+        "subset / string / duplicated labels) -> estimate(); (protocol class, population, model, layout, variances, 1-2 state "
+        "changes of model / genotype matrix / protocol between two calls) -> phenotype(); ops; phenotype() on the same objects.  "
+        "State = configuration without the "
         "tag variant / row order; outcome = digest of the returned table / matrix; non-trivial = a trial with at least one "
         "positive variance and >1 record, or an estimate whose genotype order differs from the group-by order or contains an "
         "unphenotyped taxon, or a non-identity row order")
@@ -116,6 +119,8 @@ def _bounds(ctx):
         "n_taxa_max": 4, "n_markers": R.NMARK, "traits": [1, 2], "nenv": [1, 2, 3], "nrep_max_per_env": 3,
         "variance_levels": list(R.VAR_LEVELS), "heritability_targets": [0.2, 0.5, 1.0],
         "table_rows_all_orders_max": 6, "table_rows_max": 8, "genotype_taxa_max": 5,
+        "table_row_index_variants": list(R.INDEX_VARIANTS),
+        "history_ops": list(R.OPS_COMMON) + list(R.OPS_GE), "history_ops_between_calls_max": 2,
         "models": ["additive (AL)", "additive+dominance (ADL)"],
         "t2_variance_vectors": "all 729 per structural configuration (thorough) / 27 per configuration, rotating so that "
                                "all 729 occur across configurations (quick)",
